@@ -306,6 +306,10 @@ def oracle_c04(rr: Any, spec: Dict[str, Any]) -> "tuple[List[Violation], int]":
             s["hooks_open"] = s.get("hooks_open", 0) + 1
         elif k.startswith("mw_end:"):
             s["hooks_open"] = s.get("hooks_open", 0) - 1
+        elif k == "kick_wait":  # a send this execution started (Context.requeue) is in flight: the message is still held
+            s["hooks_open"] = s.get("hooks_open", 0) + 1
+        elif k == "kick_wait_end":
+            s["hooks_open"] = s.get("hooks_open", 0) - 1
         elif (k == "dep_closed" and e.get("dep") in slow_td) or (k == "dep_close" and e.get("dep") not in slow_td):
             s["deps_open"] = s.get("deps_open", 0) - 1
         if d in unfinished and done(s):
@@ -569,8 +573,9 @@ def oracle_c07(rr: Any, spec: Dict[str, Any]) -> "tuple[List[Violation], int]":
             v.append(Violation(kind, f"delivery {d}: outcome {how} ({te[-1].get('exc')}) but {n} results stored"))
             continue
         tid, res = saved[d]
-        if tid != info["tok"]:
-            v.append(Violation("result-wrong-id", f"delivery {d} stored under {tid}"))
+        retag = any(hs.get("retag") for mw in spec.get("mws", []) for hs in mw.values() if isinstance(hs, dict))
+        if tid != info["tok"] + ("@w" if retag else ""):
+            v.append(Violation("result-wrong-id", f"delivery {d} stored under {tid}" + (" (the executed message was re-tagged by pre_execute to " + info["tok"] + "@w)" if retag else "")))
         labels_want = _labels_want(m, info["tok"])
         got_labels = {k: x for k, x in dict(res.labels).items() if not k.startswith("mk_")}
         if got_labels != labels_want:
